@@ -68,9 +68,9 @@ Lemma csort_perm : forall key l, Permutation (csort key l) l.
 Proof. intros key l. rewrite csort_partition. apply filter_partition_perm. Qed.
 
 (* ---- C. the two loops --------------------------------------------------------------------------- *)
-Lemma close_client_boot : forall st, s_boot (fst (close_client st)) = s_boot st.
+Lemma close_client_boot : forall st, s_boot (close_early st) = s_boot st.
 Proof. reflexivity. Qed.
-Lemma close_client_closed : forall st, s_closed (fst (close_client st)) = true.
+Lemma close_client_closed : forall st, s_closed (close_early st) = true.
 Proof. reflexivity. Qed.
 
 Lemma known_loop_closed : forall st order outs log, s_closed st = true ->
@@ -235,7 +235,7 @@ Proof.
       intro Hr. destruct (Hun Hr) as [Hb' [_ [Hc' Hall]]]. split; [simpl; lia|]. split; [reflexivity|].
       split; [exact Hc'|]. intros e [<-|He]; [exact Ef|apply Hall; exact He]. }
     assert (Hclose : forall o', (o' = BCloseConn \/ o' = BCloseReq) ->
-      boot_loop (fst (close_client st)) rest outs' (log0 ++ [(TBoot h, OB_ o')]) = (st', log', r) ->
+      boot_loop (close_early st) rest outs' (log0 ++ [(TBoot h, OB_ o')]) = (st', log', r) ->
       exists tries, log' = log0 ++ tries /\
       exists b, (b <= length (h :: rest))%nat /\
         map (fun e => tkey (fst e)) tries = map inr (firstn b (h :: rest)) /\
